@@ -69,8 +69,10 @@ def run(rep, tier, props):
             cone = 'none' if k % 4 else cones[(k // 4) % len(cones)]
             if cone == 'none':
                 solver, second = ('def', 'ort', 'eco', 'grb')[k % 4], 'def'
-            elif cone in ('norm2', 'square', 'sumsqr'):
+            elif cone in replay_stdform.SOC_CONES:
                 solver, second = ('eco', 'grb')[(k // 4) % 2], ('grb', 'eco')[(k // 4) % 2]
+            elif cone in ('ro-box', 'ro-norm1', 'dro-box'):
+                solver, second = ('def', 'ort', 'eco', 'grb')[(k // 4) % 4], 'def'
             else:
                 solver, second = 'eco', None
             jobs.append(dict(tid=k, decl=d['decl'], cone=cone, solver=solver, second=second, variant=k % 6,
@@ -150,6 +152,13 @@ def run(rep, tier, props):
             _emit(rep, dict(sig='C08:dual-unsolvable:%s:pats%s' % (ctag, _patclass(job)), prop='C08',
                             what='primal solved to optimality (%.6g) but the dual program could not be solved' % p, **detail), props)
             continue
+        p3, d3 = r.get('pval3'), r.get('dval3')
+        if p3 is not None and d3 is not None and abs(p3) < 1e6:
+            stats['extended_pairs'] = stats.get('extended_pairs', 0) + 1
+            if abs(p3 + d3) > 10 * tol * (1 + abs(p3)):
+                _emit(rep, dict(sig='C08:dual-after-extension-is-not-the-dual:%s' % ctag, prop='C08',
+                                what='after adding a constraint to a model whose dual had been produced: primal optimum %.8g, optimum of the dual returned now %.8g (dual object reused: %s)'
+                                     % (p3, d3, r.get('dual_object_reused')), **detail), props)
         stats['solved_pairs'] += 1
         gap = p + d
         if abs(gap) > 10 * tol * (1 + abs(p)):
